@@ -101,6 +101,11 @@ def run(chk, w):
         if not name.startswith("bidib_send_"):
             continue
         tx = [c for c in f.calls() if c.callee in S.constructors]
+        # a routine that also sends through other functions (the start-up / reset dialogue) is a sequence of messages by design, not one encoder:
+        # the single-message rule is for the leaf encoders
+        if any(c.callee in P.functions and c.callee not in S.constructors and P.functions[c.callee].blocks and rules.call_reaches(P, c, set(S.constructors)) for c in f.calls()):
+            chk.ok("C18-ONE", 1, {"routine": name, "sends_through_other_functions": True})
+            continue
         # (a) two transmit calls on one path: one reachable from the other, or one inside a loop
         many = None
         for a in tx:
